@@ -48,4 +48,13 @@ PROPS = {
                     "Model/CommitStore.lean (store-then-publish of Engine.Commit) is hand-written"],
         "assumptions": ["strace/ptrace available (else the stream degrades to images + store faults and says so)"],
     },
+    "C18": {
+        "props_modules": ["Lungo.Props.C18"],
+        "audit_files": ["Lungo/Audit/C18.lean"],
+        "tie_modules": [],
+        "streams": [("gridfs", 150)],
+        "thorough_mult": 12,
+        "trusted": ["the lungo collection engine under the bucket (its own properties C01..C17)", "gridfs.UploadBufferSize and DefaultChunkSize read from source and passed to the model"],
+        "assumptions": ["single goroutine per stream (mutexes not modelled)"],
+    },
 }
